@@ -16,7 +16,8 @@
   of timers is outside the model), and it holds in the region-level model (see the C02 known
   finding F12d for a deadlock that needs a bounded channel).
 -/
-import OllamaVerif.Proofs.Sched6
+import OllamaVerif.Proofs.Sched8
+import OllamaVerif.Properties.C02
 
 namespace OllamaVerif.C02
 open OllamaVerif.Sched
@@ -163,5 +164,101 @@ theorem drained_trace_runs :
                 s.finishedQ.isEmpty && s.expiredQ.isEmpty && s.unloadedQ == 0 && s.finishWaiters.isEmpty &&
                 s.requeuers.isEmpty && s.delayed.isEmpty && s.timerCbs.isEmpty && s.unloaders.isEmpty &&
                 !(s.runners 0).timerArmed) = some true := by decide
+
+/-- **Every request that can be answered has been answered** (first sentence of C02, liveness half):
+    in every reachable state of the good variant in which nothing internal is enabled, no load is
+    in flight and every request that holds a runner has finished ("loads in flight finish and the
+    requests ahead of it eventually complete"), the pending loop is idle and nothing is queued or
+    waiting to be re-queued — so, by `never_lost`, every accepted request has received its single
+    reply, or was skipped because its caller had already cancelled it. -/
+theorem all_answered {mr mq ds : Nat} {s : State} (hreach : Reach Variant.good (Sched.init mr mq ds) s)
+    (hs : Stuck s) (hl : s.loaders = []) (hq : 0 < s.maxQueue)
+    (hheld : ∀ r q, r < s.nRunners → q ∈ (s.runners r).holders → (s.reqs q).done = true) :
+    s.ppc = .idle ∧ s.pendingQ = [] ∧ s.delayed = [] ∧
+    ∀ q, q < s.nReqs → ((s.reqs q).replies = 1 ∨ ((s.reqs q).replies = 0 ∧ (s.reqs q).dropped = true ∧ (s.reqs q).done = true)) := by
+  have h8 := reach_invAll8 hreach
+  have h := h8.all
+  have hc := cpc_idle_of_stuck h hl hs
+  obtain ⟨hf, he, hr, ht⟩ := queues_empty_of_stuck h hl hs
+  have hunl : ∀ r, (s.runners r).locked = false := unlocked_of_stuck h hl hs
+  -- the pending loop is idle
+  have hp : s.ppc = .idle := by
+    cases hpc : s.ppc with
+    | idle => rfl
+    | eval q =>
+      have := hs (.pLookup {}) rfl
+      simp only [step, hpc] at this
+      simp at this
+      split at this <;> (try split at this) <;> simp at this
+    | needsReload q r =>
+      have := hs .pNeedsReload rfl
+      simp only [step, hpc, hunl r] at this
+      simp at this
+      repeat' split at this
+      all_goals simp at this
+    | pinging q r =>
+      have := hs (.pingDone r false) rfl
+      simp [step, hpc] at this
+    | use q r =>
+      have := hs .pUse rfl
+      simp only [step, hpc, hunl r] at this
+      simp at this
+      split at this <;> simp at this
+    | expire q r =>
+      have := hs .pExpire rfl
+      simp [step, hpc, hunl r] at this
+    | load q =>
+      have := hs (.pLoad true) rfl
+      simp [step, hpc] at this
+    | waitUnload q r =>
+      exfalso
+      have hu := h8.i8.u q r hpc
+      rcases hu with hu | hu | hu | hu | hu | hu | ⟨hu1, hu2⟩
+      · have := hs .pWaitUnload rfl
+        simp [step, hpc] at this
+        omega
+      · rw [hc] at hu; cases hu
+      · rw [he] at hu; cases hu
+      · rw [hc] at hu; cases hu
+      · rw [hr] at hu; cases hu
+      · rw [ht] at hu; cases hu
+      · -- still held with a zero session: some holder, all holders are done, so its finish event can move
+        have hrn : r < s.nRunners := by
+          by_cases hlt : r < s.nRunners
+          · exact hlt
+          · rw [h.i7.z r (Nat.le_of_not_lt hlt)] at hu1; cases hu1
+        have hun : (s.runners r).refMuHeld = false := by
+          have := hunl r; simp [Runner.locked] at this; exact this.1
+        have hc2 := h.base.i4.c2 r hrn
+        rw [hun] at hc2
+        have hne : (s.runners r).holders ≠ [] := by
+          intro e; rw [e] at hc2; simp at hc2; omega
+        obtain ⟨q', hq'⟩ := List.exists_mem_of_ne_nil _ hne
+        have htok := h.i6.t1 r q' hrn hq'
+        simp only [tokens, hf, hc, CPC.tok, List.append_nil] at htok
+        have hmem : q' ∈ s.finishWaiters := List.count_pos_iff.mp htok
+        have := hs (.finishSend q') rfl
+        simp [step, hmem, hheld r q' hrn hq'] at this
+  have hpq : s.pendingQ = [] := by
+    cases hq' : s.pendingQ with
+    | nil => rfl
+    | cons q rest =>
+      have := hs .pTake rfl
+      simp only [step, hp, hq'] at this
+      split at this <;> simp at this
+  have hd : s.delayed = [] := by
+    cases hd' : s.delayed with
+    | nil => rfl
+    | cons q rest =>
+      have := hs (.delayedRequeue q) rfl
+      simp [step, hd', hpq, hq] at this
+  refine ⟨hp, hpq, hd, ?_⟩
+  intro q hqn
+  have hcount : (pendingSet s).count q = 0 := by
+    simp [pendingSet, hpq, hd, hl, hp, PPC.req]
+  rcases never_lost hreach q hqn with h1 | h2 | h3
+  · exact Or.inl h1.1
+  · exact Or.inr ⟨h2.1, h2.2.2.1, h2.2.2.2⟩
+  · rw [hcount] at h3; omega
 
 end OllamaVerif.C02
